@@ -249,6 +249,10 @@ fn execute_on_thread(sc: &Scenario, _env: &Env) -> (Outcome, RunStats) {
         let line = x.lines().zip(y.lines()).find(|(p, q)| p != q).map(|(p, q)| format!("{:?} vs {:?}", p.trim_end(), q.trim_end())).unwrap_or_default();
         return (Outcome::Violation(Violation { class: "fold_not_deterministic".into(), signature: "fold_not_deterministic:render".into(), detail: format!("two folds of the same frames render differently (view #{k}): {line}") }), stats);
     }
+    // the rip-cli headless renderers (raw / output / metrics) on the same delivered frames
+    if let Err(v) = headless_checks(&events, &mut stats) {
+        return (Outcome::Violation(v), stats);
+    }
     // lookup by seq returns that frame or nothing
     let mut probe: Vec<u64> = events.iter().map(|e| e.seq).collect();
     probe.extend([0, 1, 2, 5, u64::MAX, u64::MAX - 1]);
@@ -268,6 +272,111 @@ fn execute_on_thread(sc: &Scenario, _env: &Env) -> (Outcome, RunStats) {
     (Outcome::Ok, stats)
 }
 
+/// rip-cli's headless renderers, compiled from the repository's `main.rs` (see `sim/ripcli`): the
+/// real loop `stream_events_with_writer` over an always-ready in-memory event stream, and the
+/// per-frame fold `render_message`, for the three views.
+///
+/// Clauses: no panic and no error on well-formed frames; two folds write identical bytes; the loop
+/// stops exactly at the first `session_ended` frame and consumes nothing after it; the raw view
+/// writes exactly the payloads it was given, one per line; the output view writes exactly the
+/// concatenation of the text deltas (closing the last line when the session ends), and when there
+/// was no text at all nothing before the end; the metrics view writes nothing before the end and
+/// then one line of JSON.
+fn headless_checks(events: &[Event], stats: &mut RunStats) -> Result<(), Violation> {
+    use ripcli_shadow::access::{run_stream, Headless, View};
+    let payloads: Vec<String> = events.iter().map(|e| serde_json::to_string(e).unwrap_or_default()).collect();
+    let stop_at = events.iter().position(|e| matches!(e.kind, EventKind::SessionEnded { .. }));
+    let upto = stop_at.map(|i| i + 1).unwrap_or(events.len());
+    let viol = |class: &str, sig: String, detail: String| Violation { class: class.into(), signature: sig, detail };
+    for (view, vname) in [(View::Raw, "raw"), (View::Output, "output"), (View::Metrics, "metrics")] {
+        let run = |label: &str| -> Result<(Vec<u8>, usize), Violation> {
+            match catch_unwind(AssertUnwindSafe(|| run_stream(view, &payloads))) {
+                Ok(Ok(x)) => Ok(x),
+                Ok(Err(e)) => Err(viol("headless_error", format!("headless_error:{vname}"), format!("{label}: the headless {vname} loop failed on {} well-formed frames: {e}", payloads.len()))),
+                Err(p) => Err(viol("panic_in_headless", format!("panic_in_headless:{vname}"), format!("{label}: the headless {vname} loop panicked on {} frames: {}", payloads.len(), panic_text(p)))),
+            }
+        };
+        let (out_a, consumed) = run("first fold")?;
+        let (out_b, _) = run("second fold")?;
+        stats.bump("headless_folds", 2);
+        if out_a != out_b {
+            return Err(viol("fold_not_deterministic", format!("fold_not_deterministic:headless_{vname}"), format!("two headless {vname} folds of the same {} frames wrote different bytes ({} vs {} bytes)", payloads.len(), out_a.len(), out_b.len())));
+        }
+        if consumed != upto {
+            return Err(viol("headless_stop_wrong", format!("headless_stop_wrong:{vname}"), format!("the loop consumed {consumed} of {} messages; the first session_ended frame is {:?}", payloads.len(), stop_at)));
+        }
+        // frame-by-frame fold: should_stop exactly on session_ended, same bytes as the loop
+        let mut h = Headless::new(view);
+        let mut inc: Vec<u8> = Vec::new();
+        for (i, p) in payloads.iter().take(upto).enumerate() {
+            let before = inc.len();
+            let r = catch_unwind(AssertUnwindSafe(|| h.feed(p, &mut inc)));
+            let stop = match r {
+                Ok(Ok(s)) => s,
+                Ok(Err(e)) => return Err(viol("headless_error", format!("headless_error:{vname}"), format!("frame #{i}: {e}"))),
+                Err(pn) => return Err(viol("panic_in_headless", format!("panic_in_headless:{vname}"), format!("frame #{i}: {}", panic_text(pn)))),
+            };
+            let is_end = matches!(events[i].kind, EventKind::SessionEnded { .. });
+            if stop != is_end {
+                return Err(viol("headless_stop_wrong", format!("headless_stop_wrong:{vname}"), format!("frame #{i}: should_stop={stop} for a frame that is {}a session end", if is_end { "" } else { "not " })));
+            }
+            if matches!(view, View::Metrics) && !is_end && inc.len() != before {
+                return Err(viol("headless_output_wrong", "headless_output_wrong:metrics_before_end".into(), format!("frame #{i}: the metrics view wrote {} bytes before the session ended", inc.len() - before)));
+            }
+        }
+        if inc != out_a {
+            return Err(viol("fold_not_deterministic", format!("fold_not_deterministic:headless_{vname}_loop_vs_fold"), format!("the loop wrote {} bytes, the frame-by-frame fold {} bytes", out_a.len(), inc.len())));
+        }
+        match view {
+            View::Raw => {
+                let mut want = Vec::new();
+                for p in payloads.iter().take(upto) {
+                    want.extend_from_slice(p.as_bytes());
+                    want.push(b'\n');
+                }
+                if out_a != want {
+                    let pos = out_a.iter().zip(want.iter()).position(|(x, y)| x != y).unwrap_or(out_a.len().min(want.len()));
+                    return Err(viol("headless_output_wrong", "headless_output_wrong:raw".into(), format!("raw view: {} bytes written, {} expected (the payloads, one per line); first difference at byte {pos}", out_a.len(), want.len())));
+                }
+            }
+            View::Output => {
+                let mut text = String::new();
+                let mut any = false;
+                for e in events.iter().take(upto) {
+                    if let EventKind::OutputTextDelta { delta } = &e.kind {
+                        text.push_str(delta);
+                        any = true;
+                    }
+                }
+                if any {
+                    if stop_at.is_some() && !text.ends_with('\n') {
+                        text.push('\n');
+                    }
+                    if out_a != text.as_bytes() {
+                        let pos = out_a.iter().zip(text.as_bytes().iter()).position(|(x, y)| x != y).unwrap_or(out_a.len().min(text.len()));
+                        return Err(viol("headless_output_wrong", "headless_output_wrong:output_text".into(), format!("output view: {} bytes written, the text deltas concatenate to {} bytes; first difference at byte {pos}", out_a.len(), text.len())));
+                    }
+                    stats.bump("headless_output_text_compared", 1);
+                } else if stop_at.is_none() && !out_a.is_empty() {
+                    return Err(viol("headless_output_wrong", "headless_output_wrong:output_without_text".into(), format!("output view wrote {} bytes although no text delta arrived and the session has not ended", out_a.len())));
+                }
+            }
+            View::Metrics => {
+                if stop_at.is_some() {
+                    let s = String::from_utf8_lossy(&out_a);
+                    let line = s.strip_suffix('\n').unwrap_or(&s);
+                    if line.contains('\n') || serde_json::from_str::<Value>(line).map(|v| !v.is_object()).unwrap_or(true) {
+                        return Err(viol("headless_output_wrong", "headless_output_wrong:metrics_not_one_json_line".into(), format!("metrics view wrote {:?}", s.chars().take(200).collect::<String>())));
+                    }
+                } else if !out_a.is_empty() {
+                    return Err(viol("headless_output_wrong", "headless_output_wrong:metrics_before_end".into(), format!("metrics view wrote {} bytes although the session has not ended", out_a.len())));
+                }
+            }
+        }
+    }
+    Ok(())
+}
+
 impl Check for C20 {
     fn id(&self) -> &'static str {
         "C20"
@@ -276,7 +385,7 @@ impl Check for C20 {
         "exploration"
     }
     fn technique(&self) -> &'static str {
-        "seeded frame sequences through a simulated faulty frame channel (drop, duplicate, reorder, stream mixing, seq jumps) into the real TuiState/FrameStore/renderer; panic capture per delivery, bound checks after every delivery, double fold for determinism; reduced form (pure fold: no scheduler or clock)"
+        "seeded frame sequences through a simulated faulty frame channel (drop, duplicate, reorder, stream mixing, seq jumps) into the real TuiState/FrameStore/renderer and rip-cli's headless renderers; panic capture per delivery, bound checks after every delivery, double fold for determinism; reduced form (pure fold: no scheduler or clock)"
     }
     fn budget(&self, tier: Tier) -> Budget {
         match tier {
@@ -317,17 +426,18 @@ impl Check for C20 {
         out.into_iter().map(|s| serde_json::to_value(s).unwrap()).collect()
     }
     fn rule(&self) -> String {
-        "one evaluation = one sequence of 1-300 frames drawn from every frame type (session, provider, tool, checkpoint, task, continuity) with arbitrary ids incl. unknown tool/task ids and terminal frames without a start, arbitrary timestamps, payloads with multi-byte text of 0-400 pieces (around every truncation limit) and now and then 1200-3000 pieces (single chunks of 9-30 kB, beyond every cap), nested JSON; a third are well-ordered single-stream histories, the rest pass a faulty channel (10% drop, 5% duplicate, 5% seq rewritten to a jump/0/MAX/earlier value, 5% reordered, three streams mixed); capacities from {1,2,3,8,50,10000} frames x {1,2,5,64,1024,10^6} output bytes; terminal sizes from 20x8 to 120x40; after every delivery: no panic, frame window / output text / previews within bounds; after the last: canvas, x-ray (json, decoded) and overlay renders do not panic; two independent folds give equal state (Debug) and equal renders; get_by_seq(s) for every seen seq and edge values returns a frame with that seq or nothing; distinct = hash of delivered frames and capacities; non-trivial = at least 3 frames".into()
+        "one evaluation = one sequence of 1-300 frames drawn from every frame type (session, provider, tool, checkpoint, task, continuity) with arbitrary ids incl. unknown tool/task ids and terminal frames without a start, arbitrary timestamps, payloads with multi-byte text of 0-400 pieces (around every truncation limit) and now and then 1200-3000 pieces (single chunks of 9-30 kB, beyond every cap), nested JSON; a third are well-ordered single-stream histories, the rest pass a faulty channel (10% drop, 5% duplicate, 5% seq rewritten to a jump/0/MAX/earlier value, 5% reordered, three streams mixed); capacities from {1,2,3,8,50,10000} frames x {1,2,5,64,1024,10^6} output bytes; terminal sizes from 20x8 to 120x40; after every delivery: no panic, frame window / output text / previews within bounds; after the last: canvas, x-ray (json, decoded) and overlay renders do not panic; two independent folds give equal state (Debug) and equal renders; get_by_seq(s) for every seen seq and edge values returns a frame with that seq or nothing; the same delivered frames go through rip-cli's headless loop in its raw, output and metrics views (no panic or error, two folds byte-identical, loop == frame-by-frame fold, stops exactly at the first session_ended, raw == payload lines, output == concatenated text deltas with the last line closed at the end, metrics == nothing before the end then one JSON object line); distinct = hash of delivered frames and capacities; non-trivial = at least 3 frames".into()
     }
     fn assumptions(&self) -> Vec<String> {
         vec![
             "the per-id summary maps (tools, tasks, jobs, artifacts) have no configured bound and are not judged".into(),
-            "the rip-cli headless renderers live in a binary crate and cannot be linked; they are not covered".into(),
+            "the rip-cli headless renderers are compiled from the repository's crates/rip-cli/src/main.rs by textual inclusion into a library (sim/ripcli); their configured memory bound does not exist (the output view buffers tool output until text arrives), so no bound is judged for them".into(),
+            "the output-view fallback summary printed when a session ends without any text is judged for determinism and totality only (no document fixes its layout)".into(),
             "key handling / interactive state (selection, scrolling) is not part of the fold and is not driven".into(),
         ]
     }
     fn components(&self) -> Value {
-        json!({"rip-tui TuiState::update, FrameStore, summary, render (ratatui TestBackend)": "real", "frame channel": "simulated (harness fault model)", "rip-cli renderers": "not covered (binary crate)", "scheduling/clock": "not involved"})
+        json!({"rip-tui TuiState::update, FrameStore, summary, render (ratatui TestBackend)": "real", "frame channel": "simulated (harness fault model)", "rip-cli headless loop stream_events_with_writer + render_message (raw/output/metrics views) + metrics.rs": "real (main.rs included textually into sim/ripcli); the SSE transport is an always-ready in-memory stream", "scheduling/clock": "not involved"})
     }
     fn extra_coverage(&self, c: &BTreeMap<String, u64>) -> Value {
         json!({"frames_delivered": c.get("frames_delivered").copied().unwrap_or(0), "lookups_checked": c.get("lookups_checked").copied().unwrap_or(0), "fault_counts": {"channel_faults": "drop/duplicate/reorder/seq-jump/stream-mixing applied at generation time (see rule)"}})
